@@ -327,9 +327,8 @@ func (g *treeGen) cfg(level string, allowNil bool) CfgMap {
 		for i := g.r.Intn(3); i > 0; i-- {
 			l = append(l, g.marker("ex", level))
 		}
-		if len(l) > 0 {
-			c["exclude-subpkg-regex"] = l
-		}
+		// an explicit empty list is a setting of its own: it overrides an inherited list
+		c["exclude-subpkg-regex"] = l
 	}
 	if g.r.Float64() < g.pSet/2 {
 		c["replace-type"] = map[string]any{
